@@ -35,18 +35,26 @@ pub enum Deco {
     Ext,
     ExtVal,
     SpaceBeforeCrlf,
+    /// a quoted extension value with obs-text bytes that are not UTF-8
+    ExtObsText,
 }
 
-pub const ALL_DECOS: [Deco; 6] = [
+pub const ALL_DECOS: [Deco; 7] = [
     Deco::Plain,
     Deco::Upper,
     Deco::LeadingZeros,
     Deco::Ext,
     Deco::ExtVal,
     Deco::SpaceBeforeCrlf,
+    Deco::ExtObsText,
 ];
 
 pub fn size_line(n: usize, deco: Deco) -> Vec<u8> {
+    if deco == Deco::ExtObsText {
+        let mut v = format!("{n:x};note=\"caf").into_bytes();
+        v.extend_from_slice(b"\xe9 \x80\xff\"\r\n");
+        return v;
+    }
     let s = match deco {
         Deco::Plain => format!("{n:x}\r\n"),
         Deco::Upper => format!("{n:X}\r\n"),
@@ -54,6 +62,7 @@ pub fn size_line(n: usize, deco: Deco) -> Vec<u8> {
         Deco::Ext => format!("{n:x};ext\r\n"),
         Deco::ExtVal => format!("{n:x};ext=val;b=\"q\"\r\n"),
         Deco::SpaceBeforeCrlf => format!("{n:x} \r\n"),
+        Deco::ExtObsText => unreachable!(),
     };
     s.into_bytes()
 }
